@@ -35,6 +35,8 @@ def with_interval_form(rng, nd):
     r = rng.random()
     if r < 0.25:
         nd["interval_str"] = "ms" if r < 0.12 else "s"
+    elif r < 0.37:
+        nd["interval_str"] = "np"      # ... and an eighth as a numpy scalar
     return nd
 
 
@@ -61,7 +63,7 @@ def gen_async_node(rng, kinds):
                                         "key": rng.choice([["modk", 2], ["modk", 3], ["id"], ["bucketNone", 2], ["bucketNone", 3]]),
                                         "keep": rng.choice(["first", "last"])})
     if k == "partition_timeout":
-        return {"kind": "partition_timeout", "n": rng.choice([2, 3]), "timeout": rng.choice([1, 1, 2, 2, 0]), "key": rng.choice([None, None, ["modk", 2]])}     # (timeout=0: flushed at once)
+        return {"kind": "partition_timeout", "n": rng.choice([2, 3, 2, 3, 1]), "timeout": rng.choice([1, 1, 2, 2, 0]), "key": rng.choice([None, None, ["modk", 2]])}     # (timeout=0: flushed at once)
     if k == "latest":
         return {"kind": "latest"}
     raise KeyError(k)
